@@ -140,6 +140,9 @@ func cmdFunc(name, prop string, dump, keep bool) int {
 			isLemma = true
 		}
 	}
+	if name == "tables" {
+		isLemma = true
+	}
 	if _, ok := p.fns[name]; !ok && !isLemma {
 		fmt.Println("no such function; candidates:")
 		for n := range p.fns {
